@@ -2168,7 +2168,7 @@ class GlobalStatsCalculator:
         median = self.store.get_median(metric_name, task=task_name, operation_type=operation_type, sample_type=SampleType.Normal)
         unit = self.store.get_unit(metric_name, task=task_name, operation_type=operation_type)
         stats = self.store.get_stats(metric_name, task=task_name, operation_type=operation_type, sample_type=SampleType.Normal)
-        if mean and median and stats:
+        if mean is not None and median is not None and stats:
             return {
                 "min": stats["min"],
                 "mean": mean,
